@@ -113,10 +113,16 @@ def run_case(text, scratch, want_report=True):
                 v = float(getattr(m, a).value)
                 outs.append(hx(v) if v == v and abs(v) != float('inf') else repr(v))
             res['outs'] = outs
-            if want_report:
+            res['post_in'] = [hx(getattr(m, a).value) for a in IN_ATTRS]     # what the inputs section will print
+            if want_report:                                                  # main() prints whether or not Calculate raised
                 try:
                     m.PrintOutputs()
                     res['report'] = out.read_text(encoding='UTF-8')
+                    from hip_ra import HipRaResult                           # the parser HipRaXClient returns
+                    try:
+                        res['client'] = [(k, hx(v['value']), v['unit']) for k, v in HipRaResult(str(out)).result.items()]
+                    except Exception as e:
+                        res['client_error'] = f'{type(e).__name__}: {str(e)[:200]}'
                     res['post_print'] = {a: (hx(getattr(m, a).value), str(getattr(getattr(m, a).CurrentUnits, 'value', '')))
                                          for a in OUT_ATTRS[:3] + OUT_ATTRS[7:]}
                 except Exception as e:
@@ -142,6 +148,21 @@ def run_many(ctx, texts, want_report=True, workers=16):
         return [_job(j) for j in jobs]
     with ProcessPoolExecutor(max_workers=min(workers, len(jobs))) as ex:
         return list(ex.map(_job, jobs, chunksize=max(1, len(jobs) // (workers * 4))))
+
+
+def sections(text):
+    """-> (lines of SUMMARY OF INPUTS, lines of SUMMARY OF RESULTS) of a HIP report, without their headers."""
+    ins, outs, cur = [], [], None
+    for line in text.split('\n'):
+        if 'SUMMARY OF INPUTS' in line:
+            cur = ins
+        elif 'SUMMARY OF RESULTS' in line:
+            cur = outs
+        elif cur is not None and line != '':
+            cur.append(line)
+        elif cur is ins and line == '':
+            cur = None
+    return ins, outs
 
 
 def parse_report(text):
